@@ -63,3 +63,68 @@ Theorem cw_find_correct_for_every_built_automaton :
     cw_find_iter V A (encode_utf8 cs) = Ok (map (to_bytes V cs) (spec_find V pvs cs)).
 Proof. exact cw_built_find. Qed.
 Print Assumptions cw_find_correct_for_every_built_automaton.
+
+(* ---- C02 AS ONE DECLARATIVE STATEMENT ----------------------------------------------------------------
+   [find_seq pvs h from ms] (Theory/SpecFind.v): every element of ms is an occurrence that lies
+   entirely at or after the end of the previous element (initially [from]), ends first among those
+   and is the longest of those ending there; ms stops exactly when no such occurrence remains.  The
+   only notion underneath is [occ_at]. *)
+From DV Require Import Theory.SpecFind Theory.Utf8Spec Theory.Utf8Spec2 Proofs.BuildTrie Proofs.BuildProps.
+
+Theorem spec_find_is_the_earliest_ending_sequence :
+  forall (V : Type) (pvs : list (list N * V)) (h : list N), find_seq V pvs h 0 (spec_find V pvs h).
+Proof. exact SpecFind.spec_find_is_the_earliest_ending_sequence. Qed.
+Print Assumptions spec_find_is_the_earliest_ending_sequence.
+
+(* what the property lists as consequences: true occurrences, never overlapping and increasing,
+   and the sequence of positions is determined by the rule *)
+Theorem earliest_ending_sequences_are_sound_disjoint_and_unique :
+  forall (V : Type) (pvs : list (list N * V)) (h : list N) (from : nat) (ms : list (nat * nat * V)),
+    find_seq V pvs h from ms ->
+    (forall s e v, In (s, e, v) ms -> occ_at V pvs h s e v /\ (from <= s)%nat)
+    /\ (forall a m b m' c, ms = a ++ m :: b ++ m' :: c -> (snd (fst m) <= fst (fst m'))%nat)
+    /\ (forall ms', find_seq V pvs h from ms' -> map fst ms = map fst ms').
+Proof.
+  intros V pvs h from ms H. split; [|split].
+  - exact (find_seq_sound V pvs h from ms H).
+  - exact (find_seq_non_overlapping V pvs h from ms H).
+  - exact (find_seq_positions_unique V pvs h from ms H).
+Qed.
+Print Assumptions earliest_ending_sequences_are_sound_disjoint_and_unique.
+
+(* every built byte-wise automaton: find_iter returns THE earliest-ending sequence *)
+Theorem bw_find_iter_returns_the_earliest_ending_sequence :
+  forall (V : Type) (veqb : V -> V -> bool), (forall a b, veqb a b = true <-> a = b) ->
+  forall nfb (pvs : list (list N * V)) (A : bw_automaton V),
+    (forall p v, In (p, v) pvs -> Forall (fun b => b < 256) p) -> 4 * total_len V pvs <= U32_MAX - 1 ->
+    bw_build_with_values V Standard nfb pvs = Ok A ->
+  forall h : list N, Forall (fun b => b < 256) h ->
+    exists ms, bw_find_iter V A h = Ok ms /\ find_seq V pvs h 0 ms.
+Proof.
+  intros V veqb Hv nfb pvs A Hb Hs HA h Hh. exists (spec_find V pvs h). split.
+  - exact (built_find V veqb Hv nfb pvs A Hb Hs HA h Hh).
+  - apply SpecFind.spec_find_is_the_earliest_ending_sequence.
+Qed.
+Print Assumptions bw_find_iter_returns_the_earliest_ending_sequence.
+
+(* every built character-wise automaton, on the UTF-8 encoding of any text: the same statement
+   about BYTE positions and the encoded patterns *)
+Theorem cw_find_iter_returns_the_earliest_ending_sequence :
+  forall (V : Type) (veqb : V -> V -> bool), (forall a b, veqb a b = true <-> a = b) ->
+  forall nfb (pvs : list (list N * V)) (A : cw_automaton V),
+    (forall p v, In (p, v) pvs -> Forall scalar p) -> 4 * total_len V pvs <= U32_MAX - 1 ->
+    cw_build_with_values V Standard nfb pvs = Ok A ->
+  forall cs : list N, Forall scalar cs ->
+    exists ms, cw_find_iter V A (encode_utf8 cs) = Ok ms
+               /\ find_seq V (bpvs V pvs) (encode_utf8 cs) 0 ms.
+Proof.
+  intros V veqb Hv nfb pvs A Hsc Hs HA cs Hcs. exists (spec_find V (bpvs V pvs) (encode_utf8 cs)). split.
+  - rewrite (cw_built_find V veqb Hv nfb pvs A Hs HA cs Hcs). f_equal.
+    destruct (cw_build_ok_lemma V Standard nfb pvs A Hs HA) as (Hv' & _).
+    apply spec_build_error_none_iff_valid in Hv' as (_ & Hne0 & Hnd).
+    assert (Hne : forall p v, In (p, v) pvs -> p <> []).
+    { intros p v Hin. rewrite Forall_forall in Hne0. apply Hne0. apply in_map_iff. exists (p, v). auto. }
+    symmetry. exact (spec_find_bytes_eq_chars V pvs Hne Hsc Hnd cs Hcs).
+  - apply SpecFind.spec_find_is_the_earliest_ending_sequence.
+Qed.
+Print Assumptions cw_find_iter_returns_the_earliest_ending_sequence.
